@@ -18,6 +18,11 @@ CHECKS = {
          "For a grid of targets (DiffableGaussian2D, Rosenbrock2D, RosenbrockND, matmul Gaussians of dim 3/8/16, Student-t, quartic) x step sizes {1e-3,0.1,0.9,2.5,1e3} x L {0,1,2,3,8,64} x n_chains {1,2,3,32} x backends NdArray<f32>/<f64>: momenta per coordinate from {-2,-0.5,0,0.5,2} (full product for n*D <= 3-4, else <= 1-2 deviating coordinates) and per-row acceptance draws at {1e-30, one ulp below / at / above exp(H-H') as recorded by the implementation, 1-ulp}. On every step: (i) the row ends at the recorded proposal iff recorded ln u <= recorded H-H', else bit-identical to its previous position; (ii) proposal, momentum and energy difference equal L velocity-Verlet steps in f64 (tolerance scaled by the measured error amplification of the trajectory); (iii) each row of a batch equals the same (x,p,u) run alone; (iv) integrating from (x',-p') returns to (x,-p); (v) all {accept,reject}^3 three-step histories, each step checked from the actual current position.",
          "Tolerances: f64 backend 1e-11*scale*(L+1)*amplification, f32 backend 1e-3 (burn's f32 kernels differ between SIMD lanes); unstable trajectories (reference magnitude > 1e6 or amplification > 1e6) are compared on decision logic only and counted.",
          "DESIGN.md §3 C02"),
+ "C03": ("E1", "model_checking",
+         "stateless DFS over the injected draws (choice vectors) of the real NUTSChain::step under a deviation bound; every recorded transition is replayed by an independent iterative Algorithm 6 on the implementation's own recorded operands",
+         "Every random draw of a transition (momentum, slice variate, direction per doubling, merge uniform at every internal tree node, accept uniform per doubling) is a choice from a small alphabet that contains the exact decision thresholds (n''/(n'+n''), min(1,n'/n)) and their neighbours; all choice vectors with <= 0-2 (quick) / 0-3 (thorough) deviations from the defaults are executed per base configuration (7-9 targets x 2-3 starts x 5-6 step sizes, tree depths 0..8+, divergent and U-turning trajectories; bound chosen per configuration so that the enumeration completes). The hook trace of each execution (every leaf with position, momentum, joint, n', s'; every merge; every doubling) is walked by an iterative Algorithm 6: slice test, divergence test (1000), subtree bookkeeping, candidate selection with the drawn uniforms, U-turn termination, top-level adoption, next state bit-identical to the selected trajectory point, acceptance statistic over the last doubling; each leaf must be one f64 leapfrog step from the trajectory's end.",
+         "Conventions Algorithm 6 leaves open are not pinned (direction half, drawing the accept uniform when s'=0, slice parametrisation). U-turn products inside the rounding margin make a transition 'ambiguous' (followed, not judged; counted, guard <= 2 %).",
+         "DESIGN.md §3 C03"),
  "C05": ("E1/E4", "model_checking",
          "explicit-state construction of the exact one-sweep kernel by enumerating EVERY outcome sequence of the real step() (scripted conditional) + list-model check of the call log for every dimension 1..64",
          "(a) A recording conditional logs (index, copy of the state it was given) and returns a fresh unique value; for every dimension 1..64, 1-3 steps, f64 (incl. NaN/-0/inf states), f32, i32 and 2-4 chains through GibbsSampler::run the log must equal the list model (each coordinate once, in order, freshest state, nothing else changed). (b) For finite joints (all 255 weight tables over {0..3} on {0,1}^2, structured tables with zeros on {0,1}^3, {0,1,2}^2, thorough also {0,1}^4, {0,1,2}^3) every outcome sequence of one sweep from every positive-probability state is executed on the real chain with its exact probability, giving the exact kernel P; pi P = pi is checked to 1e-12.",
